@@ -492,3 +492,28 @@ def choice_table(fn_node: ast.AST, var: str, atoms: dict[str, list], oracle=None
                         env[var] = ("VALUE-OF", chosen)
         table[tuple(repr(c) if isinstance(c, (dict, list, set)) else c for c in combo)] = chosen
     return table
+
+
+def subst_locals(fn_node: ast.AST, expr: ast.expr, keep: set[str] | None = None) -> ast.expr:
+    """expr with every local name that is assigned exactly once in the function, from a pure attribute chain / name / subscript of one, replaced by
+    that definition (an alias such as `echoed = payload.PreviousDiagnosticMessageData`). Names in `keep`, parameters and re-assigned locals stay."""
+    import copy
+    defs: dict[str, list[ast.expr]] = {}
+    for n in ast.walk(fn_node):
+        if isinstance(n, ast.Assign) and len(n.targets) == 1 and isinstance(n.targets[0], ast.Name):
+            defs.setdefault(n.targets[0].id, []).append(n.value)
+        elif isinstance(n, (ast.AugAssign, ast.AnnAssign, ast.For, ast.NamedExpr, ast.withitem)) or (isinstance(n, ast.Assign) and not isinstance(n.targets[0], ast.Name)):
+            for x in ast.walk(n.target if hasattr(n, "target") else (n.targets[0] if isinstance(n, ast.Assign) else (n.optional_vars or ast.Pass()))):
+                if isinstance(x, ast.Name) and isinstance(x.ctx, ast.Store):
+                    defs.setdefault(x.id, []).extend([ast.Constant(value=None)] * 2)
+
+    def chain(e: ast.expr) -> bool:
+        return isinstance(e, ast.Name) or (isinstance(e, ast.Attribute) and chain(e.value))
+    alias = {k: v[0] for k, v in defs.items() if len(v) == 1 and chain(v[0]) and not isinstance(v[0], ast.Name) and k not in (keep or set())}
+
+    class S(ast.NodeTransformer):
+        def visit_Name(self, node: ast.Name) -> ast.AST:
+            if isinstance(node.ctx, ast.Load) and node.id in alias:
+                return ast.copy_location(copy.deepcopy(alias[node.id]), node)
+            return node
+    return S().visit(copy.deepcopy(expr))
